@@ -338,7 +338,7 @@ HIST_KINDS = (
 )
 REPS = {
     "quick": {"hist:Grid": 60, "hist:OneDGrid": 6, "hist:AtomGrid": 30, "hist:MolGrid": 40, "hist:UniformGrid": 30, "hist:Tensor1DGrids": 30, "hist:PeriodicGrid0": 40, "hist:AngularGrid": 12, "hist:LocalGrid": 25},
-    "thorough": {"hist:Grid": 2500, "hist:OneDGrid": 250, "hist:AtomGrid": 600, "hist:MolGrid": 700, "hist:UniformGrid": 900, "hist:Tensor1DGrids": 900, "hist:PeriodicGrid0": 1500, "hist:AngularGrid": 300, "hist:LocalGrid": 900},
+    "thorough": {"hist:Grid": 7000, "hist:OneDGrid": 700, "hist:AtomGrid": 1500, "hist:MolGrid": 1800, "hist:UniformGrid": 2500, "hist:Tensor1DGrids": 2500, "hist:PeriodicGrid0": 4000, "hist:AngularGrid": 800, "hist:LocalGrid": 2500},
 }
 COST = {"hist:AtomGrid": 4.0, "hist:MolGrid": 8.0, "hist:AngularGrid": 2.0}
 
@@ -361,7 +361,7 @@ def cases(tier, seed):
     for fam, p in HIST_KINDS:
         for k in range(reps[fam]):
             out.append((fam, dict(p, k=k), COST.get(fam, 1.0)))
-    nsel = 2 if tier == "quick" else 40
+    nsel = 2 if tier == "quick" else 100
     for tgt in SEL_TARGETS:
         for k in range(nsel):
             out.append(("selection", dict(tgt, k=k), 1.5))
